@@ -33,7 +33,8 @@ def check(ctx):
                       "{break on success, raise on (not adaptive or retries > max_solve_retries)} - followed over 48 scenarios (bound, adaptive, refusals)", 3)
     ctx.rule("R12.4", "the dt recorded, returned and added to the clock is the dt of the last accepted solve; "
                       "dt <- tentative_dt only in screening iteration 0", 4)
-    ctx.rule("R12.5", "sign domain: the proposal is the clip of a mean of two positive terms", 1)
+    ctx.rule("R12.5", "sign domain: the proposal is the clip of a mean of two positive terms; the positivity of dt_init that this rests on is "
+                      "enforced by SolverOptions.validate()", 2)
     fu = repo.func(SOLVER, "TDGLSolver.update")
     fn = fu.node
     pm = parent_map(fn)
@@ -196,7 +197,13 @@ def check(ctx):
     ctx.ob("R12.5", "the clipped argument is positive for dt_init > 0, dt > 0 (so clip(.,0,dt_max) is in (0, dt_max])",
            s == "pos", detail={"sign": s, "term": str(prop)}, where=fu.fq, construct="sign of the proposal",
            message=f"sign of the proposal is {s}", consequence="a zero or negative step can be proposed")
-    ctx.assume("dt_init > 0 (SolverOptions.validate does not check it), 0 < multiplier < 1 (validated)")
+    from .c19 import follow_validate
+    out = {v: follow_validate(ctx.repo, {"dt_init": v})[0] for v in (0, -1e-3, 1e-9)}
+    fv = ctx.repo.func("tdgl.solver.options", "SolverOptions.validate")
+    ctx.ob("R12.5", "validate() rejects dt_init <= 0 (the first step, and every fixed step, is dt_init)", out == {0: "raise", -1e-3: "raise", 1e-9: "return"},
+           detail={repr(k): v for k, v in out.items()}, where=fv.fq, construct="dt_init > 0", message=f"validate() on dt_init samples: {out}",
+           consequence="a zero or negative time step is used (dt_init = 0: the clock never advances and the run does not end)")
+    ctx.assume("0 < multiplier < 1 and dt_init > 0 are enforced by SolverOptions.validate (R19.3 / R19.7 follow validate() on the boundary samples)")
     ctx.decline("the values of the windowed mean (history-dependent numbers)")
 
 
